@@ -16,11 +16,22 @@ the real `MapToMolecule.run_molecule` (its result is dumped: the INPUT of the li
   * `applyLinks` (mirrors the code)                       -> correspondence stream `applyLinks`
   * `specOutput` with the independent enumeration `specMatches` (RHS of `C02_iff`, the flush condition
     as the PROPERTY states it: atoms only)                 -> oracle on the real output
-  * `matchOrder` vs vermouth `match_order` on a grid       -> correspondence stream `matchOrder`
+  * `matchOrder` vs vermouth `match_order`, exhaustive on a grid with every kind of token and every resid
+    difference -4..4                                       -> correspondence stream `matchOrder`
+  * `checkRelativeOrderPy` vs the repository's `_check_relative_order`, exhaustive over all tuples of 1-3
+    tokens (repeats included) x resids {1,2,3}             -> correspondence stream `checkRelativeOrder` + oracle
+  * `parseEdgesNew` vs the repository's `_parse_edges_new` ([ edges ] lines with edge attributes), exhaustive
+    over a grid of lines x block/link/modification x edges/non-edges -> correspondence stream `parseEdgesNew`
+  * every link shape on <= 3 residues x every residue graph on <= 4 nodes through the real pipeline (what VF2
+    returns vs the model's and the specification's enumeration) -> stream `vf2-exhaustive` (applyLinks + oracle)
   * `splitDangling` / `tagVersions` vs the real parser     -> correspondence stream `dangling-split`
   * `danglingWindows` (present for every window that fits) -> oracle on linear chains
   * dangling .itp interactions vs the equivalent explicit `+` links, both through the real pipeline
                                                            -> metamorphic oracle `dangling-equivalence`
+  * `applyExplicit` vs the real `apply_explicit_link` (links that address atoms by NUMBER, `by_atom_id`), on
+    real molecules, exhaustive over a small token grid + random -> correspondence stream `explicit-link`,
+    oracle `explicit_spec` (loop-free statement); `runMolecule` vs the real `ApplyLinks.run_molecule` with
+    such links in the force field file                     -> correspondence stream `explicit-pipeline`
 Modelled, not verified: networkx VF2 (exhaustive enumeration of induced subgraph isomorphisms stands for
 it; its enumeration ORDER is not modelled: cases in which two matches of the SAME link write one key with
 different values are counted and skipped), vermouth `attributes_match`/`Choice` and the file parsers.
@@ -211,9 +222,11 @@ def run_main(ctx, cases, known_shapes, stream="main"):
 # ------------------------------------------------------------------------------------------ match_order
 
 def run_match_order(ctx):
+    """EXHAUSTIVE on a grid that contains every kind of order token (integers -3..3, runs of 1-3 `>`, `<`, `*`)
+    and every resid difference -4..4: vermouth `match_order` vs `Links.matchOrder`"""
     from vermouth.processors.do_links import match_order
-    tokens = [0, 1, 2, -1, -2, ">", ">>", "<", "<<", "*", "**"]
-    resids = [1, 2, 3, 5]
+    tokens = [0, 1, 2, 3, -1, -2, -3, ">", ">>", ">>>", "<", "<<", "<<<", "*", "**", "***"]
+    resids = [1, 2, 3, 4, 5]
     combos = [(o1, r1, o2, r2) for o1 in tokens for o2 in tokens for r1 in resids for r2 in resids]
     reqs = [dict(op="order", o1=G.enc_order(o1), r1=r1, o2=G.enc_order(o2), r2=r2) for o1, r1, o2, r2 in combos]
     answers = ctx.driver.ask(reqs)
@@ -221,7 +234,99 @@ def run_match_order(ctx):
     model = [a.get("match") for a in answers]
     bad = [c for c, i, m in zip(combos, impl, model) if i != m][:5]
     ctx.correspond("matchOrder", impl, model, dict(stream="matchOrder", first_differences=bad))
-    ctx.tally(match_order_grid=len(combos))
+    ctx.tally(match_order_exhaustive_grid=len(combos))
+
+
+def run_check_relative_order(ctx):
+    """EXHAUSTIVE: the repository's `_check_relative_order(resids, orders)` vs `Links.checkRelativeOrderPy` on
+    every tuple of 1-3 order tokens (repeats included: the dictionary loop) x every resid tuple over {1,2,3};
+    oracle: the statement of `C02_check_relative_order` evaluated with vermouth's `match_order`"""
+    import itertools
+    from polyply.src.apply_links import _check_relative_order
+    from vermouth.processors.do_links import match_order
+    tokens = [0, 1, -1, 2, ">", ">>", "<", "*", "**"] if ctx.thorough else [0, 1, -1, ">", "<", "*", "**"]
+    combos = []
+    for size in (1, 2, 3):
+        for orders in itertools.product(tokens, repeat=size):
+            for resids in itertools.product([1, 2, 3], repeat=size):
+                combos.append((list(orders), list(resids)))
+    reqs = [dict(op="checkorder", pairs=[[G.enc_order(o), r] for o, r in zip(orders, resids)]) for orders, resids in combos]
+    answers = ctx.driver.ask(reqs)
+    impl = [bool(_check_relative_order(resids, orders)) for orders, resids in combos]
+    model = [a.get("accept") for a in answers]
+    bad = [c for c, i, m in zip(combos, impl, model) if i != m][:5]
+    ctx.correspond("checkRelativeOrder", impl, model, dict(stream="checkRelativeOrder", first_differences=bad))
+    for (orders, resids), got in zip(combos, impl):
+        pairs = list(zip(orders, resids))
+        want = all(r1 == r2 for (o1, r1) in pairs for (o2, r2) in pairs if o1 == o2) and \
+            all(match_order(o1, r1, o2, r2) for (o1, r1) in pairs for (o2, r2) in pairs if o1 != o2)
+        if got != want:
+            ctx.oracle_fail("relative-order", "_check_relative_order(resids=%s, orders=%s) returns %s; one residue per order "
+                            "token and match_order on every pair of different tokens says %s" % (resids, orders, got, want),
+                            dict(stream="checkRelativeOrder", orders=orders, resids=resids))
+            break
+    ctx.tally(check_relative_order_exhaustive=len(combos))
+
+
+# ------------------------------------------------------------------------------------------ [ edges ] directive
+
+def run_parse_edges(ctx):
+    """EXHAUSTIVE: the repository's `_parse_edges_new` on every line `atom1 {attrs1} atom2 {attrs2}` over a grid
+    of references / attribute dictionaries x {block, link, modification} context x edges / non-edges, vs
+    `Links.parseEdgesNew`; oracle = the statement of `C02_edge_label` for links (an `[ edges ]` line of a link
+    labels the edge with the second atom's extra attributes)"""
+    import collections
+    import vermouth.forcefield
+    from vermouth.molecule import Block, Link, Modification
+    from vermouth.parser_utils import _tokenize
+    from polyply.src.ff_parser_sub import _parse_edges_new
+    refs1 = ["BB", "B", "SC1"]
+    refs2 = ["SC1", "+BB", "S", ">BB"]
+    attrs1 = [None, {"a": 1}, {"atomname": "Q"}, {"resname": "A"}, {"resname": "A", "x": 2}]
+    # (an explicit {"order": n} would make vermouth's _treat_atom_prefix rewrite the reference itself: not generated)
+    attrs2 = [None, {"linktype": "x"}, {"resname": "A", "linktype": "x"}, {"atomname": "Q", "linktype": "z"}, {"k": 1, "linktype": "y"}]
+    contexts = dict(block=["BB", "SC1", "S"], link=[], modification=["B", "S", "SC1"])
+    force_field = vermouth.forcefield.ForceField("verif-edges")
+    reqs, impl, labels = [], [], []
+    for ctype, nodes in contexts.items():
+        for negate in (False, True):
+            for r1 in refs1:
+                for a1 in attrs1:
+                    for r2 in refs2:
+                        for a2 in attrs2:
+                            if ctype == "block":
+                                context = Block(force_field=force_field)
+                            elif ctype == "link":
+                                context = Link()
+                            else:
+                                context = Modification(force_field=force_field, name="M")
+                            context.add_nodes_from(nodes)
+                            line = " ".join(x for x in (r1, json.dumps(a1) if a1 else "", r2, json.dumps(a2) if a2 else "") if x)
+                            try:
+                                _parse_edges_new(collections.deque(_tokenize(line)), context, ctype, negate)
+                                edges = list(context.edges(data=True))
+                                got = sorted([str(edges[0][0]), str(edges[0][1])]) + [sorted(G.enc_attrs(edges[0][2]))] if len(edges) == 1 else "edges:%d" % len(edges)
+                            except IOError:
+                                got = "IOError"
+                            except KeyError:
+                                got = "KeyError"
+                            impl.append(got)
+                            labels.append((ctype, negate, line))
+                            reqs.append(dict(op="parseedges", context=ctype, negate=negate, nodes=nodes,
+                                             a=dict(ref=r1, attrs=G.enc_attrs(a1 or {})), b=dict(ref=r2, attrs=G.enc_attrs(a2 or {}))))
+                            if ctype == "link" and not negate and got not in ("IOError", "KeyError"):
+                                extra = sorted(G.enc_attrs({k: v for k, v in (a2 or {}).items() if k not in ("atomname", "order", "resname")}))
+                                if got != sorted([r1, r2]) + [extra]:
+                                    ctx.oracle_fail("edge-label", "[ edges ] line `%s` of a link gives %s, expected the edge %s-%s labelled %s"
+                                                    % (line, got, r1, r2, extra), dict(stream="parse-edges", line=line))
+    answers = ctx.driver.ask(reqs)
+    model = []
+    for ans in answers:
+        res = ans.get("result", "model-rejects")
+        model.append(sorted([res[0], res[1]]) + [sorted(res[2])] if isinstance(res, list) else res)      # undirected edge
+    bad = [(l, i, m) for l, i, m in zip(labels, impl, model) if i != m][:5]
+    ctx.correspond("parseEdgesNew", impl, model, dict(stream="parse-edges", first_differences=bad))
+    ctx.tally(parse_edges_exhaustive=len(reqs))
 
 
 # ------------------------------------------------------------------------------------------ dangling
@@ -343,6 +448,305 @@ def run_dangling(ctx, count):
     run_dangling_items(ctx, [gen_dangling_item(ctx) for _ in range(count)])
 
 
+# ------------------------------------------------------------------------------------------ explicit links
+
+XSECTIONS = {"bonds": 2, "constraints": 2, "angles": 3, "dihedrals": 4}
+
+
+def explicit_link_text(links):
+    """.ff text of `by_atom_id` links; `links` = [[ [section, [tokens], [params], {meta}], .. ], ..]"""
+    out = []
+    for ixns in links:
+        out += ["[ link ]", "[ molmeta ]", "by_atom_id true"]
+        last = None
+        for section, tokens, params, meta in ixns:
+            if section != last:
+                out.append("[ %s ]" % section)
+                last = section
+            line = " ".join(list(tokens) + list(params))
+            if meta:
+                line += " " + json.dumps(meta)
+            out.append(line)
+    return "\n".join(out) + "\n"
+
+
+def parse_explicit_links(links):
+    """the real Link objects, read by the repository's .ff parser"""
+    import vermouth.forcefield
+    from polyply.src.ff_parser_sub import read_ff
+    force_field = vermouth.forcefield.ForceField("verif-explicit")
+    read_ff(explicit_link_text(links).splitlines(), force_field)
+    return force_field.links
+
+
+def mol_state(molecule):
+    return dict(nodes=[int(n) for n in molecule.nodes], edges=[[int(u), int(v)] for u, v in molecule.edges],
+                ixns=G.dump_ixns(molecule))
+
+
+def canon_state(ixns, edges):
+    return dict(ixns=sorted([i["section"], i["atoms"], i["version"], i["params"], i["meta"]] for i in ixns),
+                edges=sorted(sorted(e) for e in edges))
+
+
+def canon_xmodel(ans):
+    """model answer of op explicit / run -> same canonical form (version = meta.get('version', 1) as dump_ixns)"""
+    if not ans.get("ok"):
+        return dict(status="model-rejects:" + str(ans.get("err"))[:80])
+    if ans["status"] != "ok":
+        return dict(status=ans["status"])
+    ixns = []
+    for sect, atoms, params, meta in ans["ixns"]:
+        ver = [v for k, v in meta if k == "version"]
+        ixns.append(dict(section=sect, atoms=atoms, version=(int(ver[0][2:]) if ver else 1), params=params, meta=sorted(meta)))
+    return dict(status="ok", **canon_state(ixns, ans["edges"]))
+
+
+def explicit_spec(before, xixns):
+    """the property for links that address atoms by number, stated without the loop: applied iff every atom
+    token is a number naming an existing atom (else ValueError for a non-number, IOError for a missing atom,
+    decided by the first offender); every explicit interaction is then present on exactly the numbered atoms
+    with its parameters, the last definition of (section, atoms, version) winning, every other interaction is
+    unchanged and the bond edges are the old ones plus the consecutive atom pairs"""
+    nodes = set(before["nodes"])
+    for x in xixns:
+        try:
+            nums = [int(t) for t in x["atoms"]]
+        except ValueError:
+            return dict(status="ValueError")
+        if not all((n - 1) in nodes for n in nums):
+            return dict(status="IOError")
+
+    def ver0(meta):
+        hit = [v for k, v in meta if k == "version"]
+        return hit[0] if hit else "i:0"
+    table, order = {}, []
+    for i in before["ixns"]:
+        key = (i["section"], tuple(i["atoms"]), ver0(i["meta"]))
+        if key in table:
+            return None     # two block interactions under one key: outside the statement's "same atoms and version"
+        table[key] = (i["params"], i["meta"])
+        order.append(key)
+    edges = {tuple(sorted(e)) for e in before["edges"]}
+    for x in xixns:
+        atoms = [int(t) - 1 for t in x["atoms"]]
+        key = (x["section"], tuple(atoms), ver0(x["meta"]))
+        if key not in table:
+            order.append(key)
+        table[key] = (x["params"], x["meta"])
+        edges |= {tuple(sorted(p)) for p in zip(atoms[:-1], atoms[1:])}
+    ixns = []
+    for key in order:
+        params, meta = table[key]
+        ver = [v for k, v in meta if k == "version"]
+        ixns.append(dict(section=key[0], atoms=list(key[1]), version=(int(ver[0][2:]) if ver else 1), params=params, meta=sorted(meta)))
+    return dict(status="ok", **canon_state(ixns, [list(e) for e in edges]))
+
+
+def real_explicit(molecule, links):
+    """apply the parsed explicit links with the real `apply_explicit_link` -> canonical state or the exception"""
+    from polyply.src.apply_links import apply_explicit_link
+    try:
+        for link in links:
+            apply_explicit_link(molecule, link)
+    except ValueError:
+        return dict(status="ValueError")
+    except IOError:
+        return dict(status="IOError")
+    except Exception as err:  # pylint: disable=broad-except
+        return dict(status="raises:" + type(err).__name__)      # neither of the two documented outcomes
+    state = mol_state(molecule)
+    return dict(status="ok", **canon_state(state["ixns"], state["edges"]))
+
+
+def small_molecule():
+    """three one-atom residues A (atoms 0 1 2) with the next-residue bonds 0-1, 1-2 through the real pipeline"""
+    block = dict(name="A", nrexcl=1, syntax="ff", atoms=[dict(name="BB", atype="P1", cg=1)], ixns=[])
+    link = dict(atoms=[["BB", {"resname": "A"}], ["+BB", {"resname": "A"}]],
+                ixns=[["bonds", ["BB", "+BB"], ["1", "0.4", "200"], {}]], edges=[], nonedges=[], patterns=[])
+    graph = dict(nodes=[[i, i + 1, "A"] for i in range(3)], edges=[[0, 1, None], [1, 2, None]])
+    return dict(blocks=[block], links=[link], graph=graph)
+
+
+def explicit_exhaustive_items():
+    """EXHAUSTIVE: every 2-atom and 3-atom interaction over the tokens {0,1,2,3,4,X} (numbers 1..3 exist, 0 and 4
+    are the two boundary misses, X is not a number) x {no version, version 1} on the three-atom chain"""
+    tokens = ["0", "1", "2", "3", "4", "X"]
+    items = []
+    for meta in ({}, {"version": 1}):
+        for a in tokens:
+            for b in tokens:
+                items.append(dict(stream="explicit", case="small", links=[[["bonds", [a, b], ["1", "0.9", "900"], meta]]]))
+                for c in tokens:
+                    items.append(dict(stream="explicit", case="small", links=[[["angles", [a, b, c], ["2", "120", "50"], meta]]]))
+    return items
+
+
+def gen_explicit_links(rng, state):
+    """random explicit links for a molecule state: mostly existing atoms, existing interaction atoms (replace),
+    boundary numbers, rarely a name"""
+    keys = state["nodes"]
+    hi = max(keys) + 1 if keys else 0
+    links = []
+    for _ in range(rng.choice([1, 1, 2])):
+        ixns = []
+        for _ in range(rng.choice([1, 2, 3])):
+            section = rng.choice(list(XSECTIONS))
+            natoms = XSECTIONS[section]
+            same = [i for i in state["ixns"] if i["section"] == section]
+            roll = rng.random()
+            if same and roll < 0.35:
+                old = rng.choice(same)
+                tokens = [str(a + 1) for a in old["atoms"]]
+                meta = rng.choice([{}, {"version": old["version"]}, {"version": old["version"] + 1}, {"version": 0}])
+            else:
+                tokens = [str(rng.choice(keys) + 1) if keys else "1" for _ in range(natoms)]
+                meta = rng.choice([{}, {}, {"version": 1}, {"version": 2}])
+                if roll > 0.88:
+                    tokens[rng.randrange(natoms)] = rng.choice(["0", str(hi + 1), str(hi + 2), "-1", "BB",
+                                                                 str(rng.randint(1, hi + 1))])
+            if ixns and rng.random() < 0.2:
+                tokens, meta = list(ixns[-1][1]), dict(ixns[-1][3])       # later wins inside the explicit links
+                section = ixns[-1][0]
+            params = [rng.choice(["1", "2"]), "0.%d" % rng.randint(1, 9), str(rng.randint(10, 999))]
+            ixns.append([section, tokens, params, meta])
+        ixns.sort(key=lambda x: list(XSECTIONS).index(x[0]))     # sections are contiguous in a file
+        links.append(ixns)
+    return links
+
+
+def run_explicit_items(ctx, items, molecules):
+    """direct stream: the real `apply_explicit_link` on a copy of a real molecule (after ApplyLinks) vs
+    `Links.applyExplicit`, and the loop-free statement `explicit_spec` as oracle"""
+    reqs, todo = [], []
+    for item in items:
+        molecule = copy.deepcopy(molecules[json.dumps(item["case"], sort_keys=True)])
+        before = mol_state(molecule)
+        try:
+            links = parse_explicit_links(item["links"])
+            xixns = G.dump_xixns(links)
+        except G.Unsupported as err:
+            ctx.tally(unsupported=str(err)[:40])
+            continue
+        impl = real_explicit(molecule, links)
+        reqs.append(dict(op="explicit", nodes=before["nodes"], edges=before["edges"], ixns=before["ixns"], xixns=xixns))
+        todo.append((item, before, xixns, impl))
+    answers = ctx.driver.ask(reqs) if reqs else []
+    for (item, before, xixns, impl), ans in zip(todo, answers):
+        ctx.correspond("explicit-link", impl, canon_xmodel(ans), item)
+        ctx.traces += 1
+        spec = explicit_spec(before, xixns)
+        if spec is not None and spec != impl:
+            ctx.oracle_fail("explicit-link-mismatch", "explicit (by_atom_id) link %s on a molecule with atoms %s: expected %s, the "
+                            "code gives %s" % (item["links"], before["nodes"], json.dumps(spec)[:400], json.dumps(impl)[:400]), item)
+        nontrivial = impl["status"] == "ok" or any(len(l) > 1 for l in item["links"])
+        ctx.case(("explicit", json.dumps(item, sort_keys=True)) if nontrivial else None, stream="explicit",
+                 explicit_status=impl["status"])
+
+
+def run_explicit_direct(ctx):
+    from polyply.src.apply_links import ApplyLinks
+    molecules = {}
+
+    def molecule_of(case):
+        key = json.dumps(case, sort_keys=True)
+        if key not in molecules:
+            molecules[key] = run_real(case)[2].molecule
+        return key
+    small = small_molecule()
+    molecules["\"small\""] = run_real(small)[2].molecule
+    items = explicit_exhaustive_items()
+    ctx.tally(explicit_exhaustive=len(items))
+    rng = ctx.rng
+    count = ctx.budget(50, 600)
+    for _ in range(count):
+        case = G.gen_case(rng, max_res=ctx.budget(5, 8))
+        try:
+            molecule_of(case)
+        except Exception:  # pylint: disable=broad-except
+            continue        # the main stream reports a pipeline that raises
+        state = mol_state(molecules[json.dumps(case, sort_keys=True)])
+        for _ in range(3):
+            items.append(dict(stream="explicit", case=case, links=gen_explicit_links(rng, state)))
+    run_explicit_items(ctx, items, molecules)
+
+
+def run_real_explicit(case):
+    """the whole pipeline with `by_atom_id` links in the force field -> (input dump, canonical result or exception)"""
+    from polyply.src.map_to_molecule import MapToMolecule
+    from polyply.src.apply_links import ApplyLinks
+    with tempfile.TemporaryDirectory() as tmp:
+        force_field, meta = G.build(case, tmp)
+    MapToMolecule(force_field).run_molecule(meta)
+    inp = G.dump_input(meta, explicit=True)
+    # `expand_excl` (C14) runs after the explicit links: with the generator's uniform nrexcl it adds nothing
+    try:
+        ApplyLinks().run_molecule(meta)
+    except ValueError:
+        return inp, dict(status="ValueError")
+    except IOError:
+        return inp, dict(status="IOError")
+    except Exception as err:  # pylint: disable=broad-except
+        return inp, dict(status="raises:" + type(err).__name__)
+    state = mol_state(meta.molecule)
+    return inp, dict(status="ok", **canon_state(state["ixns"], state["edges"]))
+
+
+def gen_explicit_pipeline_item(ctx):
+    rng = ctx.rng
+    case = G.gen_case(rng, max_res=ctx.budget(5, 8))
+    sizes = {b["name"]: len(b["atoms"]) for b in case["blocks"]}
+    natoms = sum(sizes[name] for _k, _r, name in case["graph"]["nodes"])
+    state = dict(nodes=list(range(natoms)), ixns=[])
+    for ixns in gen_explicit_links(rng, state):
+        link = dict(molmeta={"by_atom_id": True}, atoms=[], ixns=ixns, edges=[], nonedges=[], patterns=[])
+        case["links"].insert(rng.randint(0, len(case["links"])), link)
+    return dict(stream="explicit-pipeline", case=case)
+
+
+def run_explicit_pipeline_items(ctx, items):
+    reqs, todo = [], []
+    for item in items:
+        try:
+            inp, impl = run_real_explicit(item["case"])
+        except G.Unsupported as err:
+            ctx.tally(unsupported=str(err)[:40])
+            continue
+        except Exception as err:  # pylint: disable=broad-except
+            ctx.oracle_fail("pipeline-raises", "force field with by_atom_id links: load_ff_library / MapToMolecule / ApplyLinks "
+                            "raised %s: %s" % (type(err).__name__, str(err)[:200]), item)
+            continue
+        xixns = inp.pop("xixns")
+        reqs += [dict(op="apply", input=inp), dict(op="run", input=inp, xixns=xixns)]
+        # oracle: the same force field WITHOUT the by_atom_id links through the real pipeline, then the loop-free
+        # statement of what the explicit links add (`explicit_spec`)
+        plain = dict(item["case"], links=[l for l in item["case"]["links"] if not (l.get("molmeta") or {}).get("by_atom_id")])
+        try:
+            before = mol_state(run_real(plain)[2].molecule)
+            spec = explicit_spec(before, xixns)
+        except Exception:  # pylint: disable=broad-except
+            spec = None
+        if spec is not None and spec != impl:
+            ctx.oracle_fail("explicit-link-mismatch", "force field with by_atom_id links %s on graph %s: expected %s, ApplyLinks.run_molecule "
+                            "gives %s" % ([l["ixns"] for l in item["case"]["links"] if (l.get("molmeta") or {}).get("by_atom_id")],
+                                          item["case"]["graph"], json.dumps(spec)[:300], json.dumps(impl)[:300]), item)
+        todo.append((item, impl))
+    answers = ctx.driver.ask(reqs) if reqs else []
+    for idx, (item, impl) in enumerate(todo):
+        apply_ans, run_ans = answers[2 * idx], answers[2 * idx + 1]
+        if not apply_ans.get("ok") or apply_ans.get("collisions"):
+            ctx.tally(order_dependent_cases_skipped=True)
+            ctx.case(None, stream="explicit-pipeline")
+            continue
+        ctx.correspond("explicit-pipeline", impl, canon_xmodel(run_ans), item)
+        ctx.traces += 1
+        ctx.case(("explicit-pipeline", json.dumps(item, sort_keys=True)), stream="explicit-pipeline", explicit_status=impl["status"])
+
+
+def run_explicit_pipeline(ctx, count):
+    run_explicit_pipeline_items(ctx, [gen_explicit_pipeline_item(ctx) for _ in range(count)])
+
+
 # ------------------------------------------------------------------------------------------ entry points
 
 def known_shapes_for(pid):
@@ -381,6 +785,48 @@ def small_exhaustive_cases(known=()):
     return cases
 
 
+def vf2_exhaustive_cases(thorough):
+    """EXHAUSTIVE residue-level matching: every link shape on <= 3 residues (all 11 labelled graphs on 1, 2, 3
+    link residues; orders 0, *, ** constrain nothing beyond injectivity; one edge-free `virtual_sitesn`
+    interaction on all link atoms, told apart by its version) against every CONNECTED residue graph on <= 3 nodes
+    (all 6 labelled graphs) and on 4 nodes (the 6 graphs up to isomorphism in the quick tier, all 38 labelled
+    graphs in the thorough tier).  What is compared is the set of induced,
+    injective matches VF2 returns (through the real `ApplyLinks.run_molecule`) with the model's enumeration
+    and with the specification's filter over all tuples."""
+    import itertools
+    block = dict(name="A", nrexcl=1, syntax="ff", atoms=[dict(name="BB", atype="P1", cg=1)], ixns=[])
+    keys = ["BB", "*BB", "**BB"]
+    links = []
+    for size in (1, 2, 3):
+        pairs = list(itertools.combinations(range(size), 2))
+        for mask in range(2 ** len(pairs)):
+            edges = [pairs[b] for b in range(len(pairs)) if mask >> b & 1]
+            links.append(dict(atoms=[[keys[i], {"resname": "A"}] for i in range(size)],
+                              ixns=[["virtual_sitesn", keys[:size], ["1"], {"version": len(links) + 1}]],
+                              edges=[[keys[u], keys[v], None] for u, v in edges], nonedges=[], patterns=[]))
+    graphs = []
+    for n in (1, 2, 3, 4):
+        pairs = list(itertools.combinations(range(n), 2))
+        seen = set()
+        for mask in range(2 ** len(pairs)):
+            edges = [pairs[b] for b in range(len(pairs)) if mask >> b & 1]
+            reach, grew = {0}, True
+            while grew:
+                new = {v for u, v in edges if u in reach} | {u for u, v in edges if v in reach}
+                grew = not new <= reach
+                reach |= new
+            if len(reach) < n:
+                continue        # gen_params only accepts connected residue graphs
+            if n == 4 and not thorough:
+                canon = min(tuple(sorted(tuple(sorted((perm[u], perm[v]))) for u, v in edges))
+                            for perm in itertools.permutations(range(n)))
+                if canon in seen:
+                    continue
+                seen.add(canon)
+            graphs.append(dict(nodes=[[i, i + 1, "A"] for i in range(n)], edges=[[u, v, None] for u, v in edges]))
+    return [dict(blocks=[copy.deepcopy(block)], links=copy.deepcopy(links), graph=g) for g in graphs]
+
+
 def run(ctx):
     ctx.extra["rule"] = RULE
     ctx.extra["trusted"] = [
@@ -388,11 +834,17 @@ def run(ctx):
         "subgraph isomorphisms; its enumeration order is not modelled",
         "vermouth attributes_match / Choice / match_order / make_residue_graph / .ff and .itp parsers (modelled, tied "
         "by the correspondence)",
+        "explicit links: Python int() on an atom token = Lean String.toInt? (decimal numerals, optional '-'); vermouth "
+        "Molecule.add_or_replace_interaction (first interaction with equal atoms and meta.get('version', 0) replaced in "
+        "place, else appended) is modelled by insertKV on (section, atoms, version token)",
+        "_parse_edges_new: vermouth _tokenize / _get_atoms / _treat_atom_prefix turn the line into two references and "
+        "their attribute dictionaries (the model starts from those)",
     ]
     ctx.assumptions += [
         "attribute values are compared as tokens: the generator produces strings (and block floats on both sides)",
         "non-edge targets carry numeric orders (a non-numeric one makes vermouth raise TypeError); every link atom has an order",
-        "no by_atom_id links, no parameter effectors, replace never edits resid/resname",
+        "by_atom_id links only in the explicit-link streams (atom tokens are decimal numerals, optionally signed "
+        "with '-', or names); no parameter effectors, replace never edits resid/resname",
         "cases whose result depends on the VF2 enumeration order among matches of ONE link are skipped and counted "
         "(input_distribution: order_dependent_cases_skipped)",
     ]
@@ -401,6 +853,8 @@ def run(ctx):
                                 "the real ApplyLinks output")
     known = known_shapes_for("C02")
     run_match_order(ctx)
+    run_check_relative_order(ctx)
+    run_parse_edges(ctx)
     rng = ctx.rng
     cases = corpus_cases() + small_exhaustive_cases(known)
     count = ctx.budget(500, 6000)
@@ -411,7 +865,12 @@ def run(ctx):
     # in chunks, so that a driver request stays small
     for start in range(0, len(cases), 400):
         run_main(ctx, cases[start:start + 400], known)
+    vf2 = vf2_exhaustive_cases(ctx.thorough)
+    ctx.tally(vf2_exhaustive_graphs=len(vf2), vf2_exhaustive_link_shapes=len(vf2[0]["links"]))
+    run_main(ctx, vf2, known, stream="vf2-exhaustive")
     run_dangling(ctx, ctx.budget(60, 600))
+    run_explicit_direct(ctx)
+    run_explicit_pipeline(ctx, ctx.budget(60, 800))
 
 
 def replay(ctx, data):
@@ -419,11 +878,20 @@ def replay(ctx, data):
     known = known_shapes_for("C02")
     items = [inp] if inp else [i["input"] for i in data.get("no_longer_checks", []) if i.get("input")]
     for item in items:
-        if item.get("stream") == "main" or "case" in item:
+        if item.get("stream") in ("main", "vf2-exhaustive", None) and "case" in item:
             run_main(ctx, [item["case"]], set(WITHHELD_SHAPES) | known)
         elif item.get("stream") == "matchOrder":
             run_match_order(ctx)
+        elif item.get("stream") == "checkRelativeOrder":
+            run_check_relative_order(ctx)
+        elif item.get("stream") == "parse-edges":
+            run_parse_edges(ctx)
         elif item.get("stream") == "dangling":
             run_dangling_items(ctx, [item])
+        elif item.get("stream") == "explicit":
+            case = small_molecule() if item["case"] == "small" else item["case"]
+            run_explicit_items(ctx, [item], {json.dumps(item["case"], sort_keys=True): run_real(case)[2].molecule})
+        elif item.get("stream") == "explicit-pipeline":
+            run_explicit_pipeline_items(ctx, [item])
     for b in ctx.broken:
         print("REPLAY-DISAGREES", b["name"], b["detail"][:600])
